@@ -28,12 +28,13 @@ TABLE_OPS = ["Put", "PutPrev", "PutIfAbsent", "GetOrPut", "PutOrRemove", "PutAtF
              "GetAndMoveToFront", "GetAndMoveToBack", "Remove", "RemoveGet", "RemoveFirst", "RemoveLast",
              "MoveToFront", "MoveToBack", "MoveToBefore", "MoveToBehind", "MoveToPosition",
              "SortByKey", "SortByValue", "SortSelf", "Reposition", "Swap", "Clear", "Destroy", "AssignFrom", "AssignTo", "PutAll", "MoveToTable",
-             "RemoveAll", "Intersect", "EnsureSize", "ShrinkToFit"]
+             "RemoveAll", "Intersect", "EnsureSize", "ShrinkToFit", "SetAutoSort"]
 QUERY_OPS = ["Get", "IndexOfKey", "IndexOfValue", "GetKeyAt", "GetValueAt", "GetFirstKey", "GetLastKey", "GetKeyBefore", "GetKeyAfter", "ContainsValue", "NumItems", "IsEqualTo"]
 ITER_OPS = ["ItNew", "ItNewAt", "ItAdv", "ItRet", "ItFlip", "ItDel", "ItCopy"]
-ALL_OPS = TABLE_OPS + QUERY_OPS + ITER_OPS
+ALL_OPS = [o for o in TABLE_OPS if o != "SetAutoSort"] + QUERY_OPS + ITER_OPS        # plain Hashtable: no auto-sort switch
 SORTED_OPS = ["Put", "PutPrev", "PutIfAbsent", "GetOrPut", "PutOrRemove", "Remove", "RemoveGet", "RemoveFirst", "RemoveLast", "SortSelf", "Reposition",
-              "Swap", "Clear", "Destroy", "AssignFrom", "AssignTo", "PutAll", "MoveToTable", "RemoveAll", "Intersect", "EnsureSize", "ShrinkToFit"] + QUERY_OPS + ITER_OPS
+              "Swap", "Clear", "Destroy", "AssignFrom", "AssignTo", "PutAll", "MoveToTable", "RemoveAll", "Intersect", "EnsureSize", "ShrinkToFit",
+              "SetAutoSort", "MoveToFront", "MoveToBack", "MoveToBefore", "MoveToBehind", "MoveToPosition", "PutAtFront"] + QUERY_OPS + ITER_OPS
 INVS = ["TypeOK", "IterSafe", "NoSkip", "NoTwice", "StaysSorted"]
 # calls whose effect on the table is representative of every other one (model checking of the iterator clauses)
 MC_OPS = ["Put", "PutAtFront", "PutBefore", "PutBehind", "PutAtPosition", "Remove", "RemoveFirst", "RemoveLast", "MoveToFront", "MoveToBack", "MoveToBefore",
@@ -46,6 +47,10 @@ MC_TWO = ["Put", "PutOrRemove", "PutAtFront", "PutBefore", "PutAtPosition", "Rem
           "Swap", "Clear", "AssignFrom", "AssignTo", "PutAll", "MoveToTable", "RemoveAll", "Intersect", "ItNew", "ItNewAt", "ItAdv", "ItRet", "ItFlip", "ItDel"]
 MC_SORTED = ["Put", "PutOrRemove", "Remove", "RemoveFirst", "RemoveLast", "SortSelf", "Reposition", "Swap", "Clear", "AssignFrom", "PutAll", "MoveToTable", "RemoveAll", "Intersect",
              "ItNew", "ItNewAt", "ItAdv", "ItDel"]
+# sorting classes with auto-sort switched off / explicit moves (order currently not the sorted one) followed by calls that reallocate
+MC_LOOSE = ["Put", "Remove", "SortSelf", "Reposition", "Clear", "Destroy", "SetAutoSort", "MoveToFront", "MoveToBack", "MoveToBefore", "PutAtFront", "EnsureSize", "ItNew", "ItAdv", "ItDel"]
+MC_SORTED_FULL = MC_SORTED + ["SetAutoSort", "MoveToFront", "MoveToBack", "MoveToBefore", "PutAtFront", "EnsureSize"]
+G_ORDERED = ["Put", "Remove", "SortSelf", "Reposition", "Clear", "SetAutoSort", "MoveToFront", "MoveToBack", "MoveToBefore", "MoveToBehind", "MoveToPosition", "PutAtFront", "EnsureSize", "ShrinkToFit"]
 # generation instances (spec -> code)
 G_SINGLE = ["Put", "PutAtFront", "PutAtBack", "PutBefore", "PutBehind", "PutAtPosition", "GetAndMoveToFront", "GetAndMoveToBack", "Remove", "RemoveFirst", "RemoveLast",
             "MoveToFront", "MoveToBack", "MoveToBefore", "MoveToBehind", "MoveToPosition", "SortByKey", "Clear", "ItNew", "ItNewAt", "ItAdv", "ItRet", "ItFlip", "ItDel"]
@@ -67,13 +72,13 @@ TIER = ["q"]
 CFGS = []
 
 
-def cfg(name, spec, keys, vals, maxit, sorted_, ops, ghost, record, invs=None, wrong=(), extra=""):
+def cfg(name, spec, keys, vals, maxit, sorted_, ops, ghost, record, invs=None, wrong=(), extra="", putvals="any"):
     name = name.replace("gen_", "gen_%s%d_" % (TIER[0], os.getpid() % 100000), 1)      # several runs of this check may be going on (mutant trials)
     p = os.path.join(vlib.SPEC, FAM, name)
     CFGS.append(p)
     with open(p, "w") as f:
-        f.write("SPECIFICATION %s\nCONSTANTS\n  Keys = %s\n  Vals = %s\n  MaxIt = %d\n  Sorted = \"%s\"\n  Ops = %s\n  Wrong = %s\n  GHOST = %s\n  RECORD = %s\n" %
-                (spec, iset(keys), iset(vals), maxit, sorted_, tset(ops), tset(wrong), "TRUE" if ghost else "FALSE", "TRUE" if record else "FALSE"))
+        f.write("SPECIFICATION %s\nCONSTANTS\n  Keys = %s\n  Vals = %s\n  MaxIt = %d\n  Sorted = \"%s\"\n  Ops = %s\n  PutVals = \"%s\"\n  Wrong = %s\n  GHOST = %s\n  RECORD = %s\n" %
+                (spec, iset(keys), iset(vals), maxit, sorted_, tset(ops), putvals, tset(wrong), "TRUE" if ghost else "FALSE", "TRUE" if record else "FALSE"))
         if invs: f.write("INVARIANTS " + " ".join(invs) + "\n")
         f.write(extra)
     return name
@@ -134,14 +139,16 @@ def _run(v, tier, seed, quick):
         return tag, r
 
     def wrong_variant(w, inv):
-        name = cfg("gen_Wrong_%s_%s.cfg" % (w, inv), "Spec", [1, 2], [1], 1, "none", ["Put", "Remove", "MoveToBack", "ItNew", "ItAdv", "ItDel"], True, False, [inv], wrong=[w])
+        if w == "moves_keep_tight": name = cfg("gen_Wrong_%s_%s.cfg" % (w, inv), "Spec", [1, 2], [1, 2], 0, "key", ["Put", "MoveToFront", "SetAutoSort"], True, False, [inv], wrong=[w])
+        else: name = cfg("gen_Wrong_%s_%s.cfg" % (w, inv), "Spec", [1, 2], [1], 1, "none", ["Put", "Remove", "MoveToBack", "ItNew", "ItAdv", "ItDel"], True, False, [inv], wrong=[w])
         r = pool.run(1, "MapAbs", name, FAM, timeout=600, heap="2g", extra=NOTE)
         if r.error and not r.violated: raise vlib.MachineryError("wrong variant %s: %s" % (w, r.error))
         return w, inv, r.violated == inv
 
     # ---------------------------------------------------------------------------------------- 2. spec -> code
     def generate(tag, keys, vals, maxit, ops):
-        name = cfg("gen_Gen_%s.cfg" % tag, "GenSpec", keys, vals, maxit, "none", ops, False, True, ["TypeOK"])
+        ordered = (tag == "ordered")     # tie-free instance of a sorting class (values = keys: sorted by key = sorted by value), replayed on both sorting classes
+        name = cfg("gen_Gen_%s.cfg" % tag, "GenSpec", keys, vals, maxit, "key" if ordered else "none", ops, False, True, ["TypeOK"], putvals="key" if ordered else "any")
         dot = W("g_%s.dot" % tag); bf = W("beh_%s.ndjson" % tag)
         r = pool.run(2, "MapGen", name, FAM, timeout=3000, heap="6g", dump=dot, extra=NOTE)
         vlib.require_ok(r, "MapGen graph dump %s" % tag)
@@ -178,17 +185,17 @@ def _run(v, tier, seed, quick):
                 if i % every == 0: g.write(line)
         return out
 
-    def replay(tag, bf, bad, P, slack):
-        rep = W("rep_%s_%d_%d_%d.ndjson" % (tag.replace("/", "-"), bad, P, slack)); prog = rep + ".progress"
+    def replay(tag, bf, bad, P, slack, cls=0):
+        rep = W("rep_%s_%d_%d_%d_%d.ndjson" % (tag.replace("/", "-"), bad, P, slack, cls)); prog = rep + ".progress"
         f_build.result(); t0 = time.time()
-        rc, out, err = vlib.run([ht, "replay", bf, rep, str(bad), str(P), str(slack), prog], timeout=3000)
-        info = {"instance": tag, "colliding_hash": bool(bad), "prefill": P, "slack": slack, "wall_s": round(time.time() - t0, 1)}
+        rc, out, err = vlib.run([ht, "replay", bf, rep, str(bad), str(P), str(slack), prog, str(cls)], timeout=3000)
+        info = {"instance": tag, "class": ["Hashtable", "OrderedKeysHashtable", "OrderedValuesHashtable"][cls], "colliding_hash": bool(bad), "prefill": P, "slack": slack, "wall_s": round(time.time() - t0, 1)}
         if os.environ.get("C09_TIMING"): vlib.log("  [t+%.0fs] replay %s took %.1fs" % (time.time() - T0[0], info, time.time() - t0))
         if rc != 0:
             cur = open(prog).read().strip() if os.path.exists(prog) else "?"
             if rc in (66, 67) or rc < 0 or "Sanitizer" in err or "runtime error" in err:
                 return info, None, {"what": "sanitizer report / crash (rc=%s) while replaying behaviour %s of %s (hash=%d prefill=%d slack=%d): %s" % (rc, cur, bf, bad, P, slack, _first_report(err)),
-                                    "replay": {"behaviours": bf, "behaviour": cur, "argv": [ht, "replay", bf, rep, str(bad), str(P), str(slack)], "stderr": err[-3000:]}}
+                                    "replay": {"behaviours": bf, "behaviour": cur, "argv": [ht, "replay", bf, rep, str(bad), str(P), str(slack), prog, str(cls)], "stderr": err[-3000:]}}
             raise vlib.MachineryError("ht replay failed rc=%s: %s %s" % (rc, out[-300:], err[-1500:]))
         return info, vlib.read_ndjson(rep), None
 
@@ -228,8 +235,10 @@ def _run(v, tier, seed, quick):
     # ---------------------------------------------------------------------------------------- schedule
     if quick:
         mc_jobs = [("3keys_single_table", [1, 2, 3], [1], 1, "none", MC_SINGLE, 2), ("2keys_two_tables", [1, 2], [1], 1, "none", MC_TWO, 2),
-                   ("sorted_key", [1, 2], [1, 2], 1, "key", MC_SORTED, 2), ("sorted_val", [1, 2], [1, 2], 1, "val", MC_SORTED, 2)]
-        gen_jobs = [("single", [1, 2, 3], [1], 1, G_SINGLE), ("two", [1, 2], [1], 1, G_TWO), ("vals", [1, 2], [1, 2], 1, G_VALS), ("block", [1, 2, 3], [1], 1, G_BLOCK), ("twoit", [1, 2], [1], 2, G_TWOIT)]
+                   ("sorted_key", [1, 2], [1, 2], 1, "key", MC_SORTED, 2), ("sorted_val", [1, 2], [1, 2], 1, "val", MC_SORTED, 2),
+                   ("loose_key", [1, 2], [1, 2], 1, "key", MC_LOOSE, 1), ("loose_val", [1, 2], [1, 2], 1, "val", MC_LOOSE, 1)]
+        gen_jobs = [("single", [1, 2, 3], [1], 1, G_SINGLE), ("two", [1, 2], [1], 1, G_TWO), ("vals", [1, 2], [1, 2], 1, G_VALS), ("block", [1, 2, 3], [1], 1, G_BLOCK), ("twoit", [1, 2], [1], 2, G_TWOIT),
+                    ("ordered", [1, 2, 3], [1, 2, 3], 0, G_ORDERED)]
         sim_job = ("sim", 100, 30, 1)      # one worker: the behaviours are a function of VERIF_SEED
         big_every = 16
         rnd = []   # (cls, bad, P, slack, runs, ops)
@@ -240,7 +249,7 @@ def _run(v, tier, seed, quick):
         mc_jobs = [("3keys_single_table", [1, 2, 3], [1], 1, "none", MC_SINGLE, 2), ("3keys_1it", [1, 2, 3], [1], 1, "none", MC_OPS, 4), ("2keys_2vals_1it_all", [1, 2], [1, 2], 1, "none", [o for o in ALL_OPS if o != "ItCopy"], 4),
                    ("2keys_2its", [1, 2], [1], 2, "none", ["Put", "Remove", "MoveToBack", "MoveToBefore", "PutAtPosition", "Clear", "Swap", "MoveToTable", "ItNew", "ItNewAt", "ItAdv", "ItRet", "ItDel", "ItCopy"], 4)]
         gen_jobs = [("single", [1, 2, 3], [1], 1, G_SINGLE), ("two", [1, 2], [1], 1, G_TWO), ("vals", [1, 2], [1, 2], 1, G_VALS), ("block", [1, 2, 3], [1], 1, G_BLOCK), ("twoit", [1, 2], [1], 2, G_TWOIT),
-                    ("two_big", [1, 2], [1, 2], 1, G_TWO_BIG), ("twoit_big", [1, 2], [1], 2, G_TWOIT_BIG)]
+                    ("two_big", [1, 2], [1, 2], 1, G_TWO_BIG), ("twoit_big", [1, 2], [1], 2, G_TWOIT_BIG), ("ordered", [1, 2, 3], [1, 2, 3], 0, G_ORDERED)]
         sim_job = ("sim", 4000, 50, 4)
         big_every = 2
         rnd = []
@@ -249,8 +258,9 @@ def _run(v, tier, seed, quick):
                 rnd += [(cls, bad, 0, s, 150, 400) for s in (0, 1, 2, 3)] + [(cls, bad, 253, s, 150, 400) for s in (0, 1, 2, 3)] + [(cls, bad, 65533, s, 6, 300) for s in (1, 2, 3)]
     sorted_mc = []
     if not quick:
-        so = [o for o in SORTED_OPS if o not in QUERY_OPS + ["ItCopy"]]
-        sorted_mc = [("sorted_key", [1, 2], [1, 2], 1, "key", so, 2), ("sorted_val", [1, 2], [1, 2], 1, "val", so, 2),
+        so = MC_SORTED_FULL
+        sorted_mc = [("sorted_key", [1, 2], [1, 2], 1, "key", so, 4), ("sorted_val", [1, 2], [1, 2], 1, "val", so, 4),
+                     ("loose_val_3keys", [1, 2, 3], [1, 2], 1, "val", ["Put", "PutOrRemove", "Remove", "RemoveFirst", "SortSelf", "Reposition", "Clear", "Destroy", "ItNew", "ItNewAt", "ItAdv", "ItDel", "SetAutoSort", "MoveToFront", "MoveToBack", "MoveToBefore", "MoveToBehind", "MoveToPosition", "PutAtFront", "EnsureSize", "ShrinkToFit"], 4),
                      ("sorted_val_3keys", [1, 2, 3], [1, 2], 1, "val", ["Put", "Remove", "RemoveFirst", "Reposition", "Clear", "PutAll", "MoveToTable", "ItNew", "ItNewAt", "ItAdv", "ItDel"], 4)]
 
     viol_seen = set()
@@ -263,7 +273,7 @@ def _run(v, tier, seed, quick):
         # the generation instances first: dump -> path cover -> replays is the longest chain
         f_gen = [ex.submit(generate, *j) for j in sorted(gen_jobs, key=lambda j: j[0] not in ("single", "block", "two_big", "twoit_big"))] + [ex.submit(simulate, *sim_job)]
         f_mc = [ex.submit(model_check, *j) for j in mc_jobs + sorted_mc]
-        f_wr = [ex.submit(wrong_variant, w, inv) for w, inv in (("remove_no_fixup", "IterSafe"), ("no_reorder_exemption", "NoSkip"), ("no_reorder_exemption", "NoTwice"))]
+        f_wr = [ex.submit(wrong_variant, w, inv) for w, inv in (("remove_no_fixup", "IterSafe"), ("no_reorder_exemption", "NoSkip"), ("no_reorder_exemption", "NoTwice"), ("moves_keep_tight", "StaysSorted"))]
         f_rnd = [ex.submit(random_runs, i, *j) for i, j in enumerate(rnd)]
         f_rep = []
         for f in cf.as_completed(f_gen):
@@ -271,7 +281,11 @@ def _run(v, tier, seed, quick):
             tot["behaviours"] += nb
             with open(bf) as fh: first = json.loads(fh.readline())
             samples.append({"kind": "behaviour replayed (%s)" % tag, "steps": [s for s in first["steps"] if s.get("op") != "-"][:6]})
-            if tag == "block":
+            if tag == "ordered":
+                for cls in (1, 2):
+                    for bad, slack in (((0, 1), (1, 2), (0, 0)) if quick else [(h, sl) for h in (0, 1) for sl in (0, 1, 2, 3)]): f_rep.append(ex.submit(replay, tag, bf, bad, 0, slack, cls))
+                    f_rep.append(ex.submit(replay, tag, bf, cls % 2, 253, cls, cls))
+            elif tag == "block":
                 for P in (253,):
                     for slack in (0, 1, 2, 3): f_rep.append(ex.submit(replay, tag, bf, slack % 2, P, slack))
                     if not quick:
